@@ -703,3 +703,73 @@ Proof.
   - eapply run_invK; [apply invK_init|exact H].
   - rewrite (run_fixedLoop _ _ _ H). reflexivity.
 Qed.
+
+
+(* --- the multiplexer's underlay table ------------------------------------------------------------------- *)
+
+Lemma clean_one_tracked : forall u, tracked u = true -> tracked (clean_one u) = true.
+Proof.
+  intros [d l n i] H. unfold clean_one, tracked in *. simpl in *.
+  destruct l, d; simpl in *; try discriminate; try reflexivity; destruct (n =? 0), i; reflexivity.
+Qed.
+
+Lemma mux_close_one_done : forall u, tracked u = true -> u_done (mux_close_one u) = true.
+Proof. intros [d l n i] H. unfold mux_close_one, tracked in *. simpl in *. destruct l, d; simpl in *; auto. Qed.
+
+Lemma forallb_map_imp : forall (P Q : urec -> bool) (f : urec -> urec) l,
+  (forall u, P u = true -> Q (f u) = true) -> forallb P l = true -> forallb Q (map f l) = true.
+Proof.
+  induction l; simpl; intros Hf H; auto. apply andb_true_iff in H. destruct H as [A B].
+  rewrite (Hf _ A), (IHl Hf B). reflexivity.
+Qed.
+
+Lemma forallb_upd : forall (P : urec -> bool) (f : urec -> urec) l i,
+  (forall u, P u = true -> P (f u) = true) -> forallb P l = true -> forallb P (upd l i f) = true.
+Proof.
+  induction l; simpl; intros i Hf H; auto. apply andb_true_iff in H. destruct H as [A B].
+  destruct i; simpl; [rewrite (Hf _ A), B|rewrite A, (IHl i Hf B)]; reflexivity.
+Qed.
+
+Lemma mux_step_tracked : forall l o, forallb tracked l = true -> forallb tracked (mux_step clean_one l o) = true.
+Proof.
+  intros l o H. destruct o; simpl.
+  - rewrite forallb_app, H. reflexivity.
+  - eapply forallb_map_imp; [apply clean_one_tracked|exact H].
+  - apply forallb_upd; auto.
+  - apply forallb_upd; auto.
+  - eapply forallb_map_imp; [|exact H]. intros u T. unfold tracked. rewrite (mux_close_one_done u T). reflexivity.
+Qed.
+
+Lemma mux_run_tracked : forall ops l, forallb tracked l = true -> forallb tracked (mux_run clean_one l ops) = true.
+Proof.
+  unfold mux_run. induction ops; simpl; intros l H; auto. apply IHops. apply mux_step_tracked. exact H.
+Qed.
+
+(* for every history of dials, housekeeping runs, session / scheduler changes and underlays ending by themselves:
+   every underlay whose loops run is in the table (or closed), and Mux.Close closes every one of them *)
+Lemma mux_close_releases_all : forall ops,
+  forallb tracked (mux_run clean_one [] ops) = true
+  /\ forallb u_done (mux_step clean_one (mux_run clean_one [] ops) MClose) = true
+  /\ (forall u, tracked u = true -> tracked (clean_one u) = true
+                /\ (clean_one u = u \/ (u_done (clean_one u) = true /\ u_listed (clean_one u) = false))).
+Proof.
+  intros ops. assert (T := mux_run_tracked ops [] eq_refl). split; [exact T|]. split.
+  - simpl. eapply forallb_map_imp; [apply mux_close_one_done|exact T].
+  - intros [d l n i] H. split; [apply clean_one_tracked; exact H|].
+    unfold clean_one. simpl. destruct l, d; simpl; auto; destruct (n =? 0), i; simpl; auto.
+Qed.
+
+(* the variant that drops an idle underlay which still has sessions: after one housekeeping run a running underlay
+   is in no table, and Mux.Close leaves it running *)
+Lemma mux_clean_dropping_refuted :
+  exists ops, forallb tracked (mux_run clean_one_dropping [] ops) = false
+    /\ forallb u_done (mux_step clean_one_dropping (mux_run clean_one_dropping [] ops) MClose) = false
+    /\ forallb u_done (mux_step clean_one (mux_run clean_one [] ops) MClose) = true.
+Proof. exists [MNew; MEnv 0 2 true; MClean]. vm_compute. repeat split; reflexivity. Qed.
+
+(* closeWithError sends the close request from every state in which the peer may hold the session; the variant that
+   sends it only when ESTABLISHED misses the attached client session (open request sent, nothing read yet) *)
+Lemma close_request_whenever_peer_may_hold :
+  (forall st, peer_may_hold st = true -> code_sends_close_request st = true)
+  /\ (exists st, peer_may_hold st = true /\ established_only_sends_close_request st = false).
+Proof. split; [intros [] H; auto|exists SAttached; auto]. Qed.
